@@ -378,6 +378,11 @@ def _decode_table_raw(F):
             break
     terms = []
     for site, kind, payload in d.get(vl, []):
+        if kind == "call" and callee_name(callee_of(payload)).startswith("std::convert::num::<impl std::convert::From<u8> for u32>"):
+            t = _dec_term(b._expr_of_def((site, kind, payload)))
+            if t is not None:
+                terms.append({"index": t[0], "mask": t[1], "shift": t[2], "accumulate": False, "min_len": _min_len([(cc, tk) for cc, tk in ((cmp_const(ge, islen), taken) for ge, taken, s_ in guards_of(b, site.bb)) if cc is not None])})
+                continue
         if kind != "assign":
             notes.append("val assigned by a call")
             continue
@@ -559,15 +564,39 @@ def _min_len(g):
     return m
 
 
+def _unwiden(e):
+    """(inner, True) when e is `u32::from(inner)` with inner a u8 — the lossless spelling of `inner as u32`"""
+    x = e
+    while x.k in ("ref", "deref"):
+        x = x.a[0]
+    if x.k == "call" and len(x.a) == 1 and x.x["path"].startswith("std::convert::num::<impl std::convert::From<u8> for u32>"):
+        return x.a[0], True
+    return e, False
+
+
 def _dec_term(e):
     """((data[i] & m) as u32) << s -> (i, m, s)"""
-    e = e.strip()
+    e, w = _unwiden(e)
+    e = e.strip() if not w else e.strip()
     s = 0
-    if e.k == "bin" and e.x["op"] in ("Shl", "ShlUnchecked"):
+    if not w and e.k == "bin" and e.x["op"] in ("Shl", "ShlUnchecked"):
         s = fold(e.a[1])
-        e = e.a[0].strip()
+        e, w = _unwiden(e.a[0])
+        e = e.strip()
         if s is None:
             return None
+    if w:
+        # widened by From: what follows is the u8 expression itself
+        m = 0xFF
+        if e.k == "bin" and e.x["op"] == "BitAnd":
+            l, r = e.a
+            if fold(r) is not None:
+                m, e = fold(r), l.strip()
+            elif fold(l) is not None:
+                m, e = fold(l), r.strip()
+        if e.k == "index" and is_arg(e.a[0], "data") and len(e.a) > 1 and fold(e.a[1]) is not None:
+            return fold(e.a[1]), m, s
+        return None
     if e.k == "cast" and e.x["to"] == "u32":
         e = e.a[0].strip()
     else:
@@ -592,6 +621,9 @@ def length_scanner(F):
     pos = calls(b, "Iterator::position")
     if pos and not b.loops():
         return _scanner_position_idiom(F, b, pos)
+    cnt = calls(b, "Iterator::count")
+    if cnt and not b.loops():
+        return _scanner_take_while_idiom(F, b, cnt)
     out = {"loops": len(b.loops())}
     flag = None
     for site, st in b.sites():
@@ -667,6 +699,53 @@ def _scanner_position_idiom(F, b, pos):
             pay = unwrap_payload(strip_casts(c[1]), "Some") if (c and c[0] == "Add" and fold(c[2]) == 1) else None
             kinds.append("counter+1" if (pay is not None and pay.strip().x.get("site") == pos[0][0]) else "?" + x.show()[:40])
     out["returns"] = sorted(kinds)
+    return out
+
+
+def _scanner_take_while_idiom(F, b, cnt):
+    """`let i = data.iter().take_while(|b| b & FLAG != 0).count(); if i == data.len() { 0 } else { i as u32 + 1 }`:
+    i is the index of the first byte whose flag is clear (or len when there is none) — the counting loop exactly"""
+    out = {"loops": 1, "flag_test": None, "counter_incremented_by_one_in_loop": False, "returns": []}
+    if len(cnt) != 1:
+        return out
+    it = b.arg_exprs(cnt[0][0])[0].strip()
+    if not (it.k == "call" and it.x["path"].endswith("Iterator::take_while") and len(it.a) == 2):
+        return out
+    src, clo = it.a[0], it.a[1].strip()
+    names = [x.x["path"].rsplit("::", 1)[-1] for x in src.walk() if x.k == "call"]
+    over_data = any(is_arg(x, "data") for x in src.walk()) and set(names) <= {"iter", "into_iter", "deref"}
+    cb = F.by_path.get(clo.x.get("closure"), []) if clo.k == "agg" else []
+    if len(cb) == 1 and over_data:
+        r = cb[0].expr_at_return()
+        lhs = r.a[0].strip() if r.k == "bin" else None
+        is_and = lhs is not None and lhs.k == "bin" and lhs.x["op"] == "BitAnd"
+        if r.k == "bin" and r.x["op"] == "Ne" and fold(r.a[1]) == 0 and is_and:
+            l, rr = lhs.a
+            m = fold(rr) if fold(rr) is not None else fold(l)
+            byte = l if fold(rr) is not None else rr
+            if byte.strip().k == "arg":
+                out["flag_test"] = {"mask": m, "index_is_counter": True, "breaks_when_clear": True, "in_loop": True}
+                out["counter_incremented_by_one_in_loop"] = True
+    # returns: 0 exactly when the count equals data.len(), count + 1 otherwise
+    kinds = []
+    for x in flat_alts(b.expr_at_return()):
+        if fold(x) == 0:
+            kinds.append("zero")
+        else:
+            c = checked(x)
+            base = strip_casts(c[1]).strip() if (c and c[0] == "Add" and fold(c[2]) == 1) else None
+            kinds.append("counter+1" if (base is not None and base.k == "call" and base.x.get("site") == cnt[0][0]) else "?" + x.show()[:40])
+    # the zero alternative is taken on `count == data.len()`
+    okz = False
+    for site, st in b.sites():
+        if site.i is not None and st["s"] == "assign" and st["rv"]["rv"] == "bin" and st["rv"]["op"] in ("Eq", "Ne"):
+            e = b._expr_of_def((site, "assign", st["rv"]))
+            x, y = e.a[0].strip(), e.a[1].strip()
+            if y.k == "call" and y.x.get("site") == cnt[0][0]:
+                x, y = y, x
+            if x.k == "call" and x.x.get("site") == cnt[0][0] and y.k == "call" and y.x["path"].endswith("::len") and is_arg(y.a[0], "data"):
+                okz = True
+    out["returns"] = sorted(kinds) if okz else ["?zero-not-on-count==len"]
     return out
 
 
